@@ -816,7 +816,8 @@ void GridGlobal::setAnisotropicRefinement(TypeDepth type, int min_growth, int ou
     int level = 0;
     do{
         updateGrid(++level, type, weights, level_limits);
-    }while(getNumNeeded() < min_growth);
+    }while((getNumNeeded() < min_growth)
+           && !MultiIndexManipulations::isLimitsBoxFull(level_limits, {(updated_tensors.empty()) ? &tensors : &updated_tensors}));
 }
 
 void GridGlobal::setSurplusRefinement(double tolerance, int output, const std::vector<int> &level_limits){
